@@ -6,14 +6,16 @@ use bytes::Bytes;
 use dnssec::*;
 use dnssec::denial;
 use domain::base::iana::{DigestAlgorithm, SecurityAlgorithm};
-use domain::base::name::ToName;
 use domain::base::Record;
 use domain::crypto::common::{rsa_encode, rsa_exponent_modulus, PublicKey};
 use domain::crypto::sign::{generate, GenerateParams, KeyPair, SignRaw};
 use dnssec::realkeys::{self, RealKey};
 use domain::dnssec::sign::keys::signingkey::SigningKey;
+use domain::base::rdata::ComposeRecordData;
+use dnssec::sinput::{all_verify, run_entry, Coll, ENTRIES};
 use domain::dnssec::sign::records::{Rrset, SortedRecords};
 use domain::dnssec::sign::signatures::rrsigs::{sign_rrset, sign_sorted_rrset_in};
+use domain::rdata::ZoneRecordData;
 use domain::dnssec::validator::base::{supported_algorithm, DnskeyExt, RrsigExt};
 use domain::rdata::dnssec::Timestamp;
 use domain::rdata::{Dnskey, Rrsig};
@@ -100,6 +102,10 @@ type KeyCache = std::collections::HashMap<(u8, bool, u16, Vec<u8>), SigningKey<B
 static KEYS: std::sync::LazyLock<std::sync::Mutex<KeyCache>> =
     std::sync::LazyLock::new(|| std::sync::Mutex::new(KeyCache::new()));
 
+type SigPair = (Record<SName, SRrsig>, Record<SName, SRrsig>);
+static SIGS: std::sync::LazyLock<std::sync::Mutex<std::collections::HashMap<String, SigPair>>> =
+    std::sync::LazyLock::new(|| std::sync::Mutex::new(std::collections::HashMap::new()));
+
 fn rrsig_case(input: &Value, reals: &[RealKey]) -> Value {
     let orig = match records_of(&input["orig"]) {
         Ok(r) => r,
@@ -179,12 +185,14 @@ fn rrsig_case(input: &Value, reals: &[RealKey]) -> Value {
     // (ii) a real key of the model's algorithm, obtained the model's way: the verdict
     let alg = input["key"]["alg"].as_u64().unwrap_or(0) as u8;
     let route = input["kroute"].as_str().unwrap_or("direct");
-    let Some(real) = reals.iter().find(|k| k.alg == alg) else {
+    // (a real key of the model key's algorithm and - RSA - size)
+    let publen = input["key"]["pub"].as_array().map(|a| a.len()).unwrap_or(0);
+    let Some(real) = realkeys::for_model(reals, alg, publen) else {
         return json!({"no_real_key_of_algorithm": alg});
     };
     let dnskey = real.dnskey(flags);
     // (the imported key pair of a case is kept for the later cases with the same key)
-    let ck = (alg, route == "bind", flags, key_owner.as_slice().to_vec());
+    let ck = (alg, route == "bind", flags, [key_owner.as_slice(), &publen.to_be_bytes()[..]].concat());
     let mut cache = KEYS.lock().unwrap_or_else(|e| e.into_inner());
     if !cache.contains_key(&ck) {
         let pair = match real.pair(route, flags) {
@@ -199,9 +207,19 @@ fn rrsig_case(input: &Value, reals: &[RealKey]) -> Value {
         || sk.algorithm() != dnskey.algorithm() || sk.dnskey() != dnskey {
         return json!({"key_pair_is_not_its_public_key": alg});
     }
-    let (sa, sb) = match sign_both(sk, &orig, inc, exp) {
-        Ok(x) => x,
-        Err(e) => return json!({"sign_error": e}),
+    // (the cases that differ only in what happens to the RRset after signing
+    // share the signing calls: the same key, RRset and validity period)
+    let sig_key = format!("{:?} {} {} {} {} {}", ck, input["orig"], input["inc"], input["exp"], alg, publen);
+    let cached = SIGS.lock().unwrap_or_else(|e| e.into_inner()).get(&sig_key).cloned();
+    let (sa, sb) = match cached {
+        Some(x) => x,
+        None => match sign_both(sk, &orig, inc, exp) {
+            Ok(x) => {
+                SIGS.lock().unwrap_or_else(|e| e.into_inner()).insert(sig_key, x.clone());
+                x
+            }
+            Err(e) => return json!({"sign_error": e}),
+        },
     };
     // both entry points produce signatures over the same data: each
     // verifies against the validator's reconstruction of the original
@@ -364,6 +382,136 @@ fn keysize_case(input: &Value) -> Value {
     }
 }
 
+/// The validator-side decision to take a DNSKEY as a public key at all
+/// (behind verify_signed_data), and - the same decision seen from a caller
+/// with the backend's minimum - the RSA decoder.
+fn keyaccept_case(input: &Value) -> Value {
+    let k = RecKey::of_json(&input["key"]);
+    let accept = PublicKey::from_dnskey(&k.dnskey).is_ok();
+    // verify_signed_data takes the same decision before it looks at the signature
+    let rrsig: SRrsig = Rrsig::new(rtype(1), k.dnskey.algorithm(), 1, ttl(0), Timestamp::from(0), Timestamp::from(0),
+                                   k.dnskey.key_tag(), name_of(&json!([])), Bytes::from(vec![0u8; 64])).expect("rrsig");
+    let refused = matches!(rrsig.verify_signed_data(&k.dnskey, &b"x".to_vec()),
+                           Err(domain::crypto::common::AlgorithmError::InvalidData)
+                           | Err(domain::crypto::common::AlgorithmError::Unsupported));
+    if accept == refused {
+        return json!({"from_dnskey_and_verify_disagree": accept});
+    }
+    json!({"accept": accept})
+}
+
+//------------ the signer's input routes (MC_SignerInput.tla) ---------------------
+
+/// records of the collection model: [{n, t, ttl, rd}] with opaque RDATA, class IN
+fn sr_records(v: &Value) -> Result<Vec<SRecord>, String> {
+    let w: Vec<RrW> = v.as_array().map(|a| a.iter().map(|r| RrW {
+        owner: name_wire(&r["n"]),
+        rtype: r["t"].as_u64().unwrap_or(0) as u16,
+        class: 1,
+        ttl: r["ttl"].as_u64().unwrap_or(0) as u32,
+        rdata: bytes_of(&r["rd"]),
+    }).collect()).unwrap_or_default();
+    parse_records(message_of(&w))
+}
+
+fn sr_json(r: &SRecord) -> Value {
+    let mut rd: Vec<u8> = vec![];
+    let _ = r.data().compose_canonical_rdata(&mut rd);
+    json!({"n": jname_lower(r.owner()), "t": r.rtype().to_int(), "ttl": r.ttl().as_secs(), "rd": jbytes(&rd)})
+}
+
+/// Performs the ops; returns the collection and, per op, Ok/refused and the
+/// content as the collection hands it out.
+fn build_coll(ops: &Value) -> Result<(Coll, Vec<Value>), String> {
+    let mut coll: Coll = SortedRecords::default();
+    let mut steps = vec![];
+    for op in ops.as_array().cloned().unwrap_or_default() {
+        let recs = sr_records(&op["recs"])?;
+        let mut ok = true;
+        match op["op"].as_str().unwrap_or("") {
+            "insert" => {
+                for r in recs {
+                    ok &= coll.insert(r).is_ok();
+                }
+            }
+            "from" => coll = SortedRecords::from(recs),
+            "collect" => coll = recs.into_iter().collect(),
+            "extend" => coll.extend(recs),
+            o => return Err(format!("op {o}")),
+        }
+        steps.push(json!({"ok": ok, "after": coll.iter().map(sr_json).collect::<Vec<_>>()}));
+    }
+    Ok((coll, steps))
+}
+
+
+fn sinput_case(input: &Value, reals: &[RealKey]) -> Value {
+    let apex = name_of(&input["apex"]);
+    let key_owner = name_of(&input["keyOwner"]);
+    let flags = input["key"]["flags"].as_u64().unwrap_or(0) as u16;
+    let (inc, exp) = (ts(&input["inc"]), ts(&input["exp"]));
+    let (coll, steps) = match build_coll(&input["ops"]) {
+        Ok(x) => x,
+        Err(e) => return json!({"bad_ops": e}),
+    };
+    let mut slices = vec![];
+    for sl in input["slices"].as_array().cloned().unwrap_or_default() {
+        match sr_records(&sl) {
+            Ok(r) => slices.push(r),
+            Err(e) => return json!({"bad_slice": e}),
+        }
+    }
+    // (i) a recording key: what every entry point hands to sign_raw, per RRset
+    // of the zone (the RRsets signing itself generated - NSEC, NSEC3,
+    // NSEC3PARAM - are C13's and X07's subject)
+    let rk = SigningKey::new(key_owner.clone(), flags, RecKey::of_json(&input["key"]));
+    let mut entries = serde_json::Map::new();
+    let mut rrsets = vec![];
+    for e in ENTRIES {
+        let all = match build_coll(&input["ops"]).and_then(|(c, _)| run_entry(e, c, &slices, &apex, &rk, inc, exp)) {
+            Ok(a) => a,
+            Err(err) => return json!({"entry_error": format!("{e}: {err}")}),
+        };
+        let bufs: Vec<Vec<u8>> = rk.raw_secret_key().take().into_iter()
+            .filter(|b| b.len() < 2 || !matches!(u16::from_be_bytes([b[0], b[1]]), 47 | 50 | 51))
+            .collect();
+        if e == "rrsets_sorted_in" {
+            let sigs: Vec<&SRecord> = all.iter().filter(|r| matches!(r.data(), ZoneRecordData::Rrsig(_))).collect();
+            for (i, rrset) in coll.rrsets().enumerate() {
+                let Some(ZoneRecordData::Rrsig(sig)) = sigs.get(i).map(|r| r.data()) else {
+                    return json!({"entry_error": "fewer RRSIGs than RRsets"});
+                };
+                rrsets.push(json!({"n": jname_lower(rrset.owner()), "t": rrset.rtype().to_int(), "len": rrset.len(),
+                                   "sig0": sig_fields(sig), "handed": jbytes(bufs.get(i).map(|b| &b[..]).unwrap_or(&[]))}));
+            }
+        }
+        entries.insert(e.to_string(), Value::Array(bufs.iter().map(|b| jbytes(b)).collect()));
+    }
+    // (ii) a real key: every RRSIG of every entry point verifies over its RRset in any order
+    let alg = input["key"]["alg"].as_u64().unwrap_or(15) as u8;
+    let publen = input["key"]["pub"].as_array().map(|a| a.len()).unwrap_or(0);
+    let Some(real) = realkeys::for_model(reals, alg, publen) else {
+        return json!({"no_real_key_of_algorithm": alg});
+    };
+    let dnskey = real.dnskey(flags);
+    let pair = match real.pair("direct", flags) {
+        Ok(p) => p,
+        Err(e) => return json!({"key_error": e}),
+    };
+    let sk = SigningKey::new(key_owner.clone(), flags, pair);
+    let mut verify = Value::Bool(true);
+    for e in ENTRIES {
+        let r = build_coll(&input["ops"]).and_then(|(c, _)| run_entry(e, c, &slices, &apex, &sk, inc, exp))
+            .and_then(|all| all_verify(&all, &dnskey));
+        match r {
+            Ok(n) if n >= rrsets.len() => {}
+            Ok(n) => { verify = json!(format!("{e}: only {n} RRSIGs")); break; }
+            Err(err) => { verify = json!(format!("{e}: {err}")); break; }
+        }
+    }
+    json!({"steps": steps, "rrsets": rrsets, "entries": entries, "verify": verify})
+}
+
 /// RFC 3110 layout: rsa_encode builds the public key field from exponent and
 /// modulus, rsa_exponent_modulus splits it again (refusing moduli shorter
 /// than the caller's minimum); the verifier takes the same key apart.
@@ -460,6 +608,8 @@ fn main() {
         Some("keytag") => keytag_case(input),
         Some("keysize") => keysize_case(input),
         Some("rsa") => rsa_case(input),
+        Some("keyaccept") => keyaccept_case(input),
+        Some("sinput") => sinput_case(input, reals()),
         Some("alg") => alg_case(input, reals()),
         Some("ds") => ds_case(input),
         Some("nsec") => denial::nsec_case(input),
